@@ -8,7 +8,7 @@
 EXTENDS Integers, Sequences, FiniteSets, TLC, Json
 CONSTANTS MaxSecs, MaxLevel, Sim
 
-Titles == << "One", "A & B", "Q \"uote\" 'x'", "T<ag> >", "Caf~E", "C#", "# starts with a hash", "### and a longer run" >>
+Titles == << "One", "A & B", "Q \"uote\" 'x'", "T<ag> >", "Caf~E", "C#", "# starts with a hash", "### and a longer run", "arrow ~>" >>
 HashStart == {7, 8}   \* titles that begin with a run of '#' and a blank: text after the opening marker (as a Setext heading the line would itself be an ATX heading)
 HashEnd == {6}        \* titles that end in '#': unambiguous only with closing hashes or as Setext headings
 Bodies == << "plain body\n\n", "a & b < c > \"q\" 'x' &amp; &#10;\n\n", "", "tab\there  two\nline2\n\n", "* item <b>\n* two\n\n", "    code & <pre>\n\n", "form~Ffeed and~Vvertical tab, unit~Useparator\n\n" >>      \* (~F ~V ~U: form feed, vertical tab, 0x1F -- written by the check)
@@ -26,7 +26,10 @@ HeadSrc(s) == CASE s.style = "atx"  -> Rep("#", s.lvl) \o " " \o Titles[s.t] \o 
                 [] OTHER            -> Titles[s.t] \o "\n" \o (IF s.lvl = 1 THEN "=====" ELSE "-----") \o "\n"
 SecSrc(s) == HeadSrc(s) \o "\n" \o Bodies[s.b]
 MetaSrc(m) == IF m = <<>> THEN "" ELSE Cat([i \in 1 .. Len(m) |-> m[i].k \o ": " \o m[i].v \o "\n"]) \o "\n"
-Src(d) == MetaSrc(Metas[d.m]) \o Pres[d.p] \o Cat([i \in 1 .. Len(d.secs) |-> SecSrc(d.secs[i])])
+\* cut (optional field): the text ends right after the title of the last heading (which has an empty body) -- no final newline
+Cut(d) == "cut" \in DOMAIN d
+FullSrc(d) == MetaSrc(Metas[d.m]) \o Pres[d.p] \o Cat([i \in 1 .. Len(d.secs) |-> SecSrc(d.secs[i])])
+Src(d) == IF Cut(d) THEN SubSeq(FullSrc(d), 1, Len(FullSrc(d)) - 2) ELSE FullSrc(d)
 
 \* ---- the outline the export must contain: <<depth, text, note>> in document order -------------------------------
 \* open-level stack: an item at level L closes every open item of level >= L
@@ -41,7 +44,8 @@ PreText(d) == (IF Metas[d.m] = <<>> THEN "" ELSE "\n") \o Pres[d.p]
 PreItem(d) == IF PreText(d) = "" THEN <<>> ELSE << <<1, ">>Preamble<<", PreText(d)>> >>
 MetaItems(d) == IF Metas[d.m] = <<>> THEN <<>>
                 ELSE << <<1, ">>Metadata<<", "">> >> \o [i \in 1 .. Len(Metas[d.m]) |-> <<2, Metas[d.m][i].n, Metas[d.m][i].v>>]
-Expected(d) == PreItem(d) \o Items(d.secs, 1, <<>>) \o MetaItems(d)
+CutLast(it) == [i \in 1 .. Len(it) |-> IF i = Len(it) THEN <<it[i][1], it[i][2], "">> ELSE it[i]]          \* (nothing follows the last title: its note is empty)
+Expected(d) == PreItem(d) \o (IF Cut(d) THEN CutLast(Items(d.secs, 1, <<>>)) ELSE Items(d.secs, 1, <<>>)) \o MetaItems(d)
 \* properly nested: the first heading is level 1 and no level is skipped on the way down
 Proper(d) == /\ (d.secs # <<>> => d.secs[1].lvl = 1)
              /\ \A i \in 2 .. Len(d.secs) : d.secs[i].lvl <= d.secs[i - 1].lvl + 1
@@ -66,6 +70,9 @@ SecOf(lv, n) == [lvl |-> lv, t |-> ((n + lv) % Len(Titles)) + 1, b |-> ((2 * n +
 StairLevels == {Stair(1, d, k) : d \in 4 .. 6, k \in 1 .. 3} \cup {Stair(1, 6, 2) \o <<5, 6, 6, 4, 5, 6>>, Stair(1, 5, 1) \o <<6, 6, 6, 6, 5, 6, 3, 4, 5, 6>>, <<1, 2, 3, 4, 5, 6, 1, 2, 3, 4, 5, 6>>}
 StairDocs == {[m |-> m, p |-> 1, secs |-> [n \in 1 .. Len(ls) |-> SecOf(ls[n], n)]] : m \in {1, 2}, ls \in StairLevels}
 InitStairs == doc \in StairDocs
+CutDocs == {[m |-> 1, p |-> 1, secs |-> << [lvl |-> 1, t |-> 1, b |-> 1, style |-> "atx"], [lvl |-> 2, t |-> t, b |-> 3, style |-> st] >>, cut |-> TRUE] :
+              t \in 1 .. Len(Titles), st \in {"atx", "atxc"}}
+InitCut == doc \in {x \in CutDocs : ~(x.secs[2].t \in HashEnd /\ x.secs[2].style = "atx")}
 \* laws of the specification: depths form a valid preorder (each item at most one deeper than its predecessor), notes partition the body
 DepthOK == LET it == Items(doc.secs, 1, <<>>) IN \A i \in 1 .. Len(it) : it[i][1] >= 1 /\ (i > 1 => it[i][1] <= it[i - 1][1] + 1)
 Partition == LET it == Items(doc.secs, 1, <<>>) IN
